@@ -1,6 +1,6 @@
 (* C20 — a shutdown signal always ends `run`, promptly, and frees the port. Property theorems only (model: Shutdown.v,
    the accept thread / signalling thread / kernel backlog transition system of App::run). *)
-From Hv Require Import Prelude Shutdown ShutdownProofs.
+From Hv Require Import Prelude Shutdown ShutdownProofs ShutdownMoreProofs.
 
 (* Once the signal has been received, in every reachable state that has not yet returned some internal step (of the
    accept thread or of the signalling thread) is enabled: no deadlock, whatever connections are queued or were accepted. *)
@@ -46,7 +46,35 @@ Example C20_trace :
             listening := false |}.
 Proof. exact shutdown_trace. Qed.
 
+(* "responses to requests received before it are not truncated": a connection handed to the pool stays handed — the
+   shutdown path never takes one back (the list of served connections only grows at its end) *)
+Theorem C20_served_only_grows :
+  forall (ls : list label) (x y : st), run x ls = Some y -> exists more, served y = served x ++ more.
+Proof. exact served_only_grows. Qed.
+
+(* once the accept loop has observed the flag, nothing more is handed to a handler, whatever still arrives *)
+Theorem C20_nothing_served_after_break :
+  forall (ls : list label) (x y : st), run x ls = Some y -> (a x = AStop \/ a x = ADone) ->
+    served y = served x /\ (a y = AStop \/ a y = ADone).
+Proof. exact nothing_served_after_break. Qed.
+
+(* the wake-up connection made by the signalling thread never reaches a handler *)
+Theorem C20_wake_never_served :
+  forall (ls : list label) (y : st), run init ls = Some y ->
+    ~ In Wake (served y) /\ forall c, a y = ADispatch c -> c <> Wake.
+Proof. exact wake_never_served. Qed.
+
+(* a connection is dropped unanswered only by the loop iteration that observed the flag *)
+Theorem C20_dropped_only_at_break :
+  forall (x : st) (l : label) (y : st), step x l = Some y -> dropped y <> dropped x ->
+    l = CheckBreak /\ flag x = true /\ exists c, a x = ACheck c /\ dropped y = dropped x ++ [c].
+Proof. exact dropped_only_at_break. Qed.
+
 Print Assumptions C20_progress_after_signal.
+Print Assumptions C20_served_only_grows.
+Print Assumptions C20_nothing_served_after_break.
+Print Assumptions C20_wake_never_served.
+Print Assumptions C20_dropped_only_at_break.
 Print Assumptions C20_bounded_internal_steps.
 Print Assumptions C20_stuck_means_returned_and_port_free.
 Print Assumptions C20_serves_until_signal.
